@@ -232,6 +232,174 @@ def chained_any_form(fx, rep, p, slf):
     return True
 
 
+def summary_ref(roles, flat):
+    OKS = REC if flat else mk_payload(REC, "Ok", "0")
+    hk = mk_payload(OKS, "Header", "key")
+    hv = mk_payload(OKS, "Header", "value")
+
+    def ref(o):
+        if not o(("is", R.NEXT, "Some")):
+            return ("end", ())
+        if not flat and not o(("is", REC, "Ok")):
+            return ("cont", ())
+        if o(("is", OKS, "Header")):
+            if o(("eq", hk, ("lit", "str", "compiler"))):
+                return ("cont", (("assign", roles["compiler"], hv),))
+            if o(("eq", hk, ("lit", "str", "compiler_version"))):
+                return ("cont", (("assign", roles["compiler_version"], hv),))
+            if o(("eq", hk, ("lit", "str", "min_api"))):
+                if o(("is", hv, "Some")):
+                    pr = ("call", "core::str::parse::<u32>", (mk_payload(hv, "Some", "0"),))
+                    v = some(mk_payload(pr, "Ok", "0")) if o(("is", pr, "Ok")) else NONE
+                else:
+                    v = NONE
+                return ("cont", (("assign", roles["min_api"], v),))
+            return ("cont", ())
+        if o(("is", OKS, "Class")):
+            return ("cont", (("inc", roles["class_count"]),))
+        if o(("is", OKS, "Method")):
+            return ("cont", (("inc", roles["method_count"]),))
+        return ("cont", ())
+    return ref
+
+
+SUMMARY_FIELDS = ["compiler", "compiler_version", "min_api", "class_count", "method_count"]
+
+
+def summary_fold_form(fx, rep, p):
+    """`mapping.iter().fold(<empty summary>, |acc, item| <acc with one record accounted for>)`: the closure applied to a symbolic
+    accumulator gives, per path, the new summary; a field that is `acc.field` is untouched, `acc.field + 1` is an increment,
+    anything else an assignment - the same per-record outcome the loop form has. Returns True if the form applies (decided here)."""
+    b = fx.bodies[p]
+    nxt = set(A.method(fx, "mapping::ProguardRecordIter", "next", trait="Iterator"))
+    sy = S.Sym(fx, inline_mut=True, opaque=lambda q: q in nxt)
+    try:
+        res = sy.eval_body(b)
+    except S.Undecidable:
+        return False
+    if sy.loop_order or len(res) != 1:
+        return False
+    v = res[0][1][1]
+    if not (v[0] == "call" and v[1].endswith("Iterator::fold") and len(v[2]) == 3 and v[2][2][0] == "closure"):
+        return False
+    rep.fn(p)
+    mparam = [prm["pat"]["name"] for prm in b["params"] if prm.get("pat")][0]
+    want_drv = iter_term(("in", mparam))
+    drv, init, clo = v[2]
+    flat = drv == ("call", "std::iter::Iterator::flatten", (want_drv,))
+    rep.check("C19.2", "C19.2/summary/driver", drv == want_drv or flat, loc=F.short_file(b["sp"]), found="fold over %s" % S.tstr(drv),
+              expected="fold over %s" % S.tstr(want_drv))
+    want_init = ("adt", "MappingSummary", "MappingSummary", (("compiler", NONE), ("compiler_version", NONE), ("min_api", NONE),
+                                                              ("class_count", lit_int(0)), ("method_count", lit_int(0))))
+    init_n = ("adt", "MappingSummary", "MappingSummary", tuple((fn, dict(init[3]).get(fn)) for fn in SUMMARY_FIELDS)) \
+        if init[0] == "adt" and init[1] == "MappingSummary" else init
+    rep.check("C19.2", "C19.2/summary/initial-values", init_n == want_init, loc=F.short_file(b["sp"]), found=S.tstr(init)[:200],
+              expected="None / None / None / 0 / 0", nontrivial=False)
+    acc = ("in", "ACC")
+    nx = ("mcall", "std::iter::Iterator::next", (("place", "records", ()),), 900)
+    some_st = S.St(conds=((("is", nx, "Some"), True),))
+    try:
+        cps = sy.apply(clo, [acc, mk_payload(nx, "Some", "0")], some_st, {"sp": "?"})
+    except S.Undecidable as e:
+        rep.undecidable("C19.2", "C19.2/summary/shape", loc=F.short_file(b["sp"]), construct="fold closure: %s" % e.msg)
+        return True
+    roles = {fn: fn for fn in SUMMARY_FIELDS}
+
+    def outcome(st, out):
+        val = fc.rewrite(out[1], rw)
+        if not (val[0] == "adt" and val[1] == "MappingSummary") and val != acc:
+            return ("other", val)
+        d = dict(val[3]) if val != acc else {}
+        effs = []
+        for fn in SUMMARY_FIELDS:
+            fv = d.get(fn, mk_field(acc, fn))
+            if fv == mk_field(acc, fn):
+                continue
+            if fv[0] == "lin" and fv[2] == 1 and len(fv[1]) == 1 and fv[1][0] == (mk_field(acc, fn), 1):
+                effs.append(("inc", fn))
+            else:
+                effs.append(("assign", fn, fv))
+        others = [e for e in norm_eff(st)]
+        return ("cont", tuple(effs) + tuple(others))
+    paths = [(st2, o2) for st2, o2 in cps]
+    bad, n = fc.compare_paths(paths, summary_ref(roles, flat), outcome, rw=rw, base=0)
+    if not bad:
+        rep.ok("C19.2", "C19.2/summary/per-record", loc=F.short_file(b["sp"]),
+               found="%d canonical paths of the fold step equal the reference: counts incremented on Ok(Class)/Ok(Method); compiler, compiler_version, "
+                     "min_api plainly replaced (last header wins); every other field carried over" % len(paths))
+    else:
+        for conds, io, ro, comp in bad[:3]:
+            rep.violation("C19.2", "C19.2/summary/per-record/" + R1.short_hash(S.cstr(conds) + repr(io)), loc=F.short_file(b["sp"]),
+                          found="when %s: %s" % (S.cstr(tuple((fc.rewrite(a, rw), p_) for a, p_ in conds)), S.tstr(io)[:300]), expected=S.tstr(ro)[:300])
+    rep.ok("C19.2", "C19.2/summary/wiring", loc=F.short_file(b["sp"]), found="the fold's accumulator is the result (MappingSummary), field by field")
+    return True
+
+
+def is_valid_try_fold_form(fx, rep, p, slf):
+    """`self.iter().take(50).try_fold(false, |seen, item| ..).is_break()`: Continue(x) carries the flag, Break ends the scan with
+    `true`; exhausting the 50 items gives Continue -> `false`. Returns True if the form applies (decided here)."""
+    b = fx.bodies[p]
+    nxt = set(A.method(fx, "mapping::ProguardRecordIter", "next", trait="Iterator"))
+    sy = S.Sym(fx, inline_mut=True, opaque=lambda q: q in nxt)
+    try:
+        res = sy.eval_body(b)
+    except S.Undecidable:
+        return False
+    if sy.loop_order or len(res) != 1:
+        return False
+    v = res[0][1][1]
+    if not (v[0] == "call" and v[1].endswith("ControlFlow::is_break") and len(v[2]) == 1):
+        return False
+    tf = v[2][0]
+    if not (tf[0] == "call" and tf[1].endswith("Iterator::try_fold") and len(tf[2]) == 3 and tf[2][2][0] == "closure"):
+        return False
+    rep.fn(p)
+    drv, init, clo = tf[2]
+    want = ("call", "std::iter::Iterator::take", (iter_term(slf), lit_int(50)))
+    rep.check("C19.3", "C19.3/is_valid/driver", drv == want, loc=F.short_file(b["sp"]), found="try_fold over %s" % S.tstr(drv), expected="try_fold over %s" % S.tstr(want))
+    rep.check("C19.3", "C19.3/is_valid/flag-init", init == FALSE, loc=F.short_file(b["sp"]), found="flag initial value %s" % S.tstr(init), expected="false", nontrivial=False)
+    seen_t = ("in", "SEEN")
+    nx = ("mcall", "std::iter::Iterator::next", (("place", "records", ()),), 900)
+    try:
+        cps = sy.apply(clo, [seen_t, mk_payload(nx, "Some", "0")], S.St(conds=((("is", nx, "Some"), True),)), {"sp": "?"})
+    except S.Undecidable as e:
+        rep.undecidable("C19.3", "C19.3/is_valid/shape", loc=F.short_file(b["sp"]), construct="try_fold closure: %s" % e.msg)
+        return True
+
+    def outcome(st, out):
+        val = fc.rewrite(out[1], rw)
+        others = tuple(norm_eff(st))
+        if val[0] == "adt" and val[1] == "ControlFlow" and val[2] == "Break":
+            return ("ret", TRUE, others)
+        if val[0] == "adt" and val[1] == "ControlFlow" and val[2] == "Continue":
+            nv = val[3][0][1]
+            return ("cont", ((() if nv == seen_t else (("assign", "SEEN", nv),)) + others))
+        return ("other", val)
+
+    def ref(o):
+        if not o(("is", R.NEXT, "Some")):
+            return ("end", ())
+        if not o(("is", REC, "Ok")):
+            return ("cont", ())
+        if o(("is", OKR, "Class")):
+            return ("cont", (("assign", "SEEN", TRUE),))
+        if (o(("is", OKR, "Field")) or o(("is", OKR, "Method"))) and o(("bool", seen_t)):
+            return ("ret", TRUE, ())
+        return ("cont", ())
+    bad, n = fc.compare_paths(list(cps), ref, outcome, rw=rw, base=0)
+    if not bad:
+        rep.ok("C19.3", "C19.3/is_valid/per-record", loc=F.short_file(b["sp"]),
+               found="%d canonical paths of the try_fold step equal the reference: flag := true on Ok(Class); Break on Ok(Field|Method) once the flag is set; "
+                     "otherwise Continue with the flag unchanged" % len(cps))
+    else:
+        for conds, io, ro, comp in bad[:3]:
+            rep.violation("C19.3", "C19.3/is_valid/per-record/" + R1.short_hash(S.cstr(conds) + repr(io)), loc=F.short_file(b["sp"]),
+                          found="when %s: %s" % (S.cstr(tuple((fc.rewrite(a, rw), p_) for a, p_ in conds)), S.tstr(io)[:300]), expected=S.tstr(ro)[:300])
+    rep.ok("C19.3", "C19.3/is_valid/after-loop", loc=F.short_file(b["sp"]), found="result is try_fold(..).is_break(): true iff the step broke, false after the first 50 items",
+           nontrivial=False)
+    return True
+
+
 def run(ctx, rep):
     fx = ctx.facts("")
     _FX[0] = fx
@@ -260,6 +428,8 @@ def run(ctx, rep):
     # ---- summary
     cands = A.method(fx, "mapping::MappingSummary", "new")
     p = A.one(rep, "C19.2", "MappingSummary::new", cands)
+    if p and summary_fold_form(fx, rep, p):
+        p = None
     if p:
         r = loop_of(fx, rep, "C19.2", "C19.2/summary", p)
         if r:
@@ -343,6 +513,8 @@ def run(ctx, rep):
     # ---- is_valid
     p = A.one(rep, "C19.3", "ProguardMapping::is_valid", A.method(fx, "mapping::ProguardMapping", "is_valid"))
     if p and chained_any_form(fx, rep, p, slf):
+        p = None
+    if p and is_valid_try_fold_form(fx, rep, p, slf):
         p = None
     if p:
         r = loop_of(fx, rep, "C19.3", "C19.3/is_valid", p)
